@@ -252,9 +252,10 @@ package tlv
 //@   pure
 //@ func (nodes TlvNodes) Nodes
 //@   trusted
+//@   ensures "the-node-list-itself": result == nodes.nodes
 //@   ensures len(result) == topCount(nodes.src) && topCount(nodes.src) >= 0
 //@   ensures len(result) >= 1 ==> result[0] != nil && nodeTag(ref(result[0])) == firstTag(nodes.src) && nodeValid(result[0])
-//@   assigns nothing
+//@   pure
 //@ func NewTlvNilNode
 //@   trusted
 //@   ensures result != nil && !nodeValid(result)
